@@ -27,7 +27,17 @@ struct G {
     p.ops.push_back(o2);
     return p.ops.back();
   }
-  int add_child(const ChildSpec &c) { p.children.push_back(c); return (int) p.children.size() - 1; }
+  unsigned desc_pct = 0;  // share of children that leave a descendant behind holding some of their standard descriptors
+  int add_child(const ChildSpec &c0) {
+    ChildSpec c = c0;
+    if (desc_pct && r.below(100) < desc_pct) {
+      Step sp{ Step::SPAWN, (int) r.range(1, 7), pick({ 5, 50, 300, 100000 }), 0 };
+      if (!c.script.empty() && (c.script.back().k == Step::EXIT || c.script.back().k == Step::RAISE)) c.script.insert(c.script.end() - 1, sp);
+      else c.script.push_back(sp);
+    }
+    p.children.push_back(c);
+    return (int) p.children.size() - 1;
+  }
   int add_start(const StartSpec &s) { p.starts.push_back(s); return (int) p.starts.size() - 1; }
   void fault(int opi, Kind k, int nth, bool child, int err, int variant = 0) {
     Fault f; f.op = opi; f.kind = k; f.nth = nth; f.child = child; f.err = err; f.variant = variant;
@@ -47,11 +57,19 @@ void world_swarm(G &g, bool allow_preempt = true) {
   w.reoccupy_num = (unsigned) g.pick({ 0, 0, 0, 30 });
   w.zombie_gap = (unsigned) g.pick({ 0, 1, 1 });
   w.stick_pct = (unsigned) g.pick({ 30, 50, 80 });
+  w.core_dumps = g.chance(40) ? 1 : 0;
   g.p.w.low_fds = 7;
   g.p.w.cwd_depth = (int) g.r.range(1, 3);
   g.p.w.cwd_comp = (int) g.r.range(1, 12);
   g.p.w.parent_env = { "PATH=/bin:/usr/bin", "HOME=/home/u" };
   if (g.chance(30)) g.p.w.parent_env.push_back("LANG=C");
+}
+
+// the wall clock is stepped (operator, NTP, VM resume) while the plan runs; elapsed time and every timeout are unaffected
+void maybe_clock_step(G &g, unsigned pct) {
+  if (!g.chance(pct)) return;
+  g.p.w.k.clock_step_at_ms = g.pick({ 0, 1, 5, 20, 50, 100 });
+  g.p.w.k.clock_step_ms = g.pick({ -86400000, -3600000, -60000, -500, -30, 30, 500, 60000, 3600000, 86400000 });
 }
 
 ChildSpec::Term rand_term(G &g, ChildSpec &c) {
@@ -170,11 +188,14 @@ void destroy_all(G &g, int nh, bool quick_kill = false) {
   (void) quick_kill;
 }
 
+std::string rand_bytes(G &g, size_t maxlen);
+
 // ------------------------------------------------------------------ C14: arbitrary call sequences
 Plan gen_c14(uint64_t seed, const GenOpts &o, const char *name = "C14") {
   G g(seed, name, o);
   world_swarm(g);
   int nh = (int) g.r.range(1, 3);
+  g.desc_pct = 5;
   int nch = (int) g.r.range(1, 3);
   for (int i = 0; i < nch; i++) g.add_child(rand_child(g));
   int nops = (int) g.r.range(6, g.o.thorough ? 60 : 32);
@@ -194,6 +215,13 @@ Plan gen_c14(uint64_t seed, const GenOpts &o, const char *name = "C14") {
       if (g.chance(20) && s.in.type == 0 && !s.in.handle && !s.in.file && !s.in.path && !s.parent && !s.discard) s.input_size = g.pick({ 0, 1, 100, 5000 });
       if (g.chance(30)) s.nonblocking = true;
       if (g.chance(40)) rand_stop(g, s.stop, g.chance(10));
+      if (g.chance(35) && !s.fork) { int na = (int) g.r.range(1, 4); for (int a = 0; a < na; a++) s.args.push_back(rand_bytes(g, a == 0 ? 40 : 6)); }
+      if (g.chance(35)) {
+        s.env_null = false;
+        int ne = (int) g.r.range(0, 4);
+        for (int e = 0; e < ne; e++) s.env_extra.push_back(g.chance(85) ? "N" + rand_bytes(g, 3) + "=" + rand_bytes(g, 12) : rand_bytes(g, 8));
+        if (g.chance(30)) s.env_behavior = g.C.ENV_EMPTY;
+      }
       Op &op = g.op(OP_START, h);
       op.spec = g.add_start(s);
       op.a = (int64_t) g.r.below(512);
@@ -217,6 +245,18 @@ Plan gen_c14(uint64_t seed, const GenOpts &o, const char *name = "C14") {
     else { Op &op = g.op(OP_SLEEP, -1); op.a = g.pick({ 1, 5, 50, 500 }); }
     if (faults && g.chance(12)) add_random_fault(g, (int) g.p.ops.size() - 1, g.p.ops.back().kind);
   }
+  // an interrupted reap in the middle of the life cycle: whatever the interrupted call returned, the handle stays usable
+  // and the next waits still find the (dead) child
+  if (faults && g.chance(6)) {
+    int h = (int) g.r.below((uint64_t) nh);
+    g.op(OP_KILL, h);
+    g.op(OP_SLEEP, -1).a = 2;
+    Op &w1 = g.op(g.chance(70) ? OP_WAIT : OP_STOP, h); w1.a = w1.kind == OP_WAIT ? 100 : g.C.S_WAIT; w1.b = 100;
+    g.fault((int) g.p.ops.size() - 1, g.chance(70) ? K_waitpid : K_poll, 1, false, EINTR);
+    g.op(OP_SLEEP, -1).a = 2;
+    g.op(OP_WAIT, h).a = g.pick({ 0, 50 });
+    g.op(OP_WAIT, h).a = 0;
+  }
   if (g.chance(85)) destroy_all(g, nh);
   return g.p;
 }
@@ -224,6 +264,7 @@ Plan gen_c14(uint64_t seed, const GenOpts &o, const char *name = "C14") {
 // ------------------------------------------------------------------ C01: exit status exact, stable, reaped once
 Plan gen_c01(uint64_t seed, const GenOpts &o) {
   G g(seed, "C01", o);
+  g.desc_pct = 8;
   world_swarm(g);
   // stratified endings: every exit code and every signal comes round
   uint64_t e = seed % 287;
@@ -267,6 +308,7 @@ Plan gen_c01(uint64_t seed, const GenOpts &o) {
 // ------------------------------------------------------------------ C02: stream fidelity
 Plan gen_c02(uint64_t seed, const GenOpts &o) {
   G g(seed, "C02", o);
+  g.desc_pct = 8;
   world_swarm(g);
   size_t cap = g.p.w.k.pipe_cap;
   auto size_pick = [&]() -> int64_t {
@@ -361,9 +403,17 @@ Plan gen_c02(uint64_t seed, const GenOpts &o) {
   g.op(OP_DESTROY, 0);
   if (g.chance(15)) {
     int target = (int) g.r.below(g.p.ops.size());
+    // half of the time aim at a write that moves more than a few bytes (a short count must leave a remainder)
+    if (g.chance(50))
+      for (size_t i = 0; i < g.p.ops.size(); i++)
+        if (g.p.ops[i].kind == OP_WRITE && g.p.ops[i].a > 8) { target = (int) i; if (g.chance(50)) break; }
     int kd = g.p.ops[(size_t) target].kind;
     if (kd == OP_READ) g.fault(target, K_read, (int) g.r.range(1, 3), false, g.chance(50) ? EINTR : F_SHORT, 1);
-    if (kd == OP_WRITE) g.fault(target, K_write, 1, false, g.chance(50) ? EINTR : F_SHORT, (int) g.pick({ 1, 3 }));
+    if (kd == OP_WRITE) {
+      g.fault(target, K_write, 1, false, g.chance(50) ? EINTR : F_SHORT, (int) g.pick({ 1, 3 }));
+      // a signal storm: a short count first, then an interruption of whatever the library does next inside the same call
+      if (g.chance(40)) g.fault(target, K_write, 2, false, EINTR);
+    }
     if (kd == OP_DRAIN) g.fault(target, g.chance(50) ? K_poll : K_read, (int) g.r.range(1, 4), false, EINTR);
   }
   (void) nthreads;
@@ -401,6 +451,7 @@ Plan gen_c03(uint64_t seed, const GenOpts &o) {
   }
   g.p.w.parent_env.clear();
   int npe = (int) g.r.range(0, 12);
+  if (g.chance(6)) npe = (int) g.pick({ 62, 63, 64, 65, 127, 128, 129, 300 });  // counts around typical growth steps of a vector
   bool have_path = false;
   for (int i = 0; i < npe; i++) {
     if (i == 0 && g.chance(70)) { g.p.w.parent_env.push_back(g.chance(50) ? "PATH=/usr/bin:/bin" : "PATH=/bin"); have_path = true; continue; }
@@ -414,17 +465,29 @@ Plan gen_c03(uint64_t seed, const GenOpts &o) {
   s.wd = (int) g.pick({ 0, 0, 1, 1, 4, 5 });
   if (g.chance(8)) s.wd = (int) g.pick({ 2, 3 });
   if (g.chance(5)) s.prog = (int) g.pick({ 4, 5, 7 });
-  int na = (int) g.pick({ 0, 1, 2, 5, 40 });
+  int na = (int) g.pick({ 0, 1, 2, 5, 40, 40, 63, 64, 65, 200 });
   for (int i = 0; i < na; i++) s.args.push_back(rand_bytes(g, i % 7 == 0 ? 300 : 12));
   s.env_behavior = g.chance(70) ? g.C.ENV_EXTEND : g.C.ENV_EMPTY;
   s.env_null = g.chance(30);
   if (!s.env_null) {
-    int ne = (int) g.pick({ 0, 1, 3, 40 });
+    int ne = (int) g.pick({ 0, 1, 3, 40, 40, 70, 130 });
     for (int i = 0; i < ne; i++) {
       if (i == 0 && g.chance(30)) { s.env_extra.push_back(g.chance(50) ? "PATH=/usr/bin" : "PATH=/work:/bin"); continue; }
       s.env_extra.push_back(g.chance(80) ? "E" + std::to_string(i) + "=" + rand_bytes(g, 16) : rand_bytes(g, 10));
     }
+    // entries are passed through as they are: a name the parent also has, the same name twice, an empty name
+    if (g.chance(25) && !g.p.w.parent_env.empty()) {
+      const std::string &pe = g.p.w.parent_env[g.r.below(g.p.w.parent_env.size())];
+      s.env_extra.insert(s.env_extra.begin() + (long) g.r.below(s.env_extra.size() + 1), pe.substr(0, pe.find('=') + 1) + "override");
+    }
+    if (g.chance(12) && !s.env_extra.empty()) {
+      std::string d = s.env_extra[g.r.below(s.env_extra.size())];
+      size_t eq = d.find('=');
+      s.env_extra.push_back(eq == std::string::npos ? d : d.substr(0, eq + 1) + "again");
+    }
+    if (g.chance(5)) s.env_extra.push_back("=anonymous");
   }
+  if (g.chance(12)) { s.fork = true; s.argv_null = true; s.args.clear(); }
   s.out.type = g.C.R_DISCARD;
   s.in.type = g.C.R_DISCARD;
   s.stop[0] = g.C.S_WAIT; s.stop[1] = g.C.INFINITE_;
@@ -468,6 +531,7 @@ Plan gen_start_scenario(uint64_t seed, const GenOpts &o, const char *name) {
     int ni = (int) g.r.range(0, 5), nhd = (int) g.r.range(0, 5);
     for (int i = 0; i < ni; i++) g.p.w.ignored.push_back((int) g.r.range(1, 31));
     for (int i = 0; i < nhd; i++) g.p.w.handled.push_back((int) g.r.range(1, 64));
+    g.p.w.sigpipe = (int) g.pick({ 0, 1, 1, 2 });  // these plans never write to a pipe themselves
   }
   g.add_child(child_quiet(g.pick({ 0, 5 }), false, (int) g.r.below(256)));
   StartSpec s = rand_scenario(g, 0);
@@ -485,6 +549,17 @@ Plan gen_start_scenario(uint64_t seed, const GenOpts &o, const char *name) {
   }
   if (s.fork) { s.prog = 0; }
   s.stop[0] = g.C.S_KILL; s.stop[1] = g.C.INFINITE_;
+  // a bystander: another handle of the same caller whose child has already ended and waits to be reaped by its own handle
+  bool bystander = g.chance(25);
+  if (bystander) {
+    g.add_child(child_quiet(0, false, (int) g.r.range(1, 200)));
+    StartSpec sb = simple_start(g, 1);
+    sb.in.type = sb.out.type = sb.err.type = g.C.R_DISCARD;
+    sb.stop[0] = g.C.S_KILL; sb.stop[1] = g.C.INFINITE_;
+    g.op(OP_NEW, 1);
+    Op &b = g.op(OP_START, 1); b.spec = g.add_start(sb);
+    g.op(OP_SLEEP, -1).a = 1;
+  }
   g.op(OP_NEW, 0);
   Op &st = g.op(OP_START, 0);
   st.spec = g.add_start(s);
@@ -510,6 +585,7 @@ Plan gen_start_scenario(uint64_t seed, const GenOpts &o, const char *name) {
   g.op(OP_WAIT, 0).a = g.C.INFINITE_;
   g.op(OP_TERMINATE, 0);
   g.op(OP_DESTROY, 0);
+  if (bystander) { g.op(OP_WAIT, 1).a = g.C.INFINITE_; g.op(OP_DESTROY, 1); }
   return g.p;
 }
 
@@ -537,6 +613,14 @@ Plan gen_c06(uint64_t seed, const GenOpts &o) {
         else { s.stop[0] = g.C.S_KILL; s.stop[1] = g.C.INFINITE_; }
         Op &op = g.op(OP_START, h); op.spec = g.add_start(s);
         if (g.chance(25)) add_random_fault(g, (int) g.p.ops.size() - 1, OP_START);
+        else if (g.chance(8)) {
+          // the error path of a start reaps the failed child itself: a child-side failure plus an interrupted reap
+          int opi = (int) g.p.ops.size() - 1;
+          Kind k = (Kind) g.pick({ K_getrlimit, K_sigmask, K_chdir, K_execvp, K_dup2 });
+          g.fault(opi, k, 1, true, k == K_execvp ? ENOENT : k == K_chdir ? EACCES : k == K_dup2 ? EBUSY : EINVAL);
+          g.fault(opi, K_waitpid, 1, false, EINTR);
+          if (g.chance(30)) g.fault(opi, K_waitpid, 2, false, EINTR);
+        }
         break;
       }
       case 2: g.op(OP_TERMINATE, h); break;
@@ -547,6 +631,10 @@ Plan gen_c06(uint64_t seed, const GenOpts &o) {
       case 8: g.op(OP_SLEEP, -1).a = g.pick({ 1, 10, 50 }); break;
       case 9: g.op(OP_PID, h); break;
     }
+    // the reap itself fails (interrupted, or somebody else - a SIGCHLD policy, a foreign wait - took the child): whatever the
+    // handle remembers afterwards, later signals still go to its own positive pid or nowhere
+    if ((g.p.ops.back().kind == OP_WAIT || g.p.ops.back().kind == OP_STOP) && g.chance(10))
+      g.fault((int) g.p.ops.size() - 1, K_waitpid, 1, false, (int) g.pick({ EINTR, ECHILD, ECHILD }));
   }
   for (int h = 0; h < nh; h++) { g.op(OP_KILL, h); g.op(OP_WAIT, h).a = 1000; g.op(OP_TERMINATE, h); g.op(OP_KILL, h); g.op(OP_DESTROY, h); }
   return g.p;
@@ -571,12 +659,14 @@ void stratified_stop(G &g, uint64_t seed, int stop[6], bool allow_inf) {
     stop[2 * i] = acts[t % 5];
     t /= 5;
     stop[2 * i + 1] = (int) g.pick({ 0, 0, 5, 20, 50, 100, (int64_t) g.C.DEADLINE_, (int64_t) (allow_inf ? g.C.INFINITE_ : 20) });
+    if (g.chance(10)) stop[2 * i + 1] = (int) g.r.range(0, 160);
   }
 }
 
 Plan gen_c07(uint64_t seed, const GenOpts &o) {
   G g(seed, "C07", o);
   world_swarm(g);
+  maybe_clock_step(g, 5);
   ChildSpec c; int64_t T;
   child_for_stop(g, c, &T);
   g.add_child(c);
@@ -617,12 +707,14 @@ Plan gen_c07(uint64_t seed, const GenOpts &o) {
 Plan gen_c15(uint64_t seed, const GenOpts &o) {
   G g(seed, "C15", o);
   world_swarm(g);
+  maybe_clock_step(g, 5);
   ChildSpec c; int64_t T;
   child_for_stop(g, c, &T);
   g.add_child(c);
   StartSpec s = simple_start(g, 0);
   if (g.chance(50)) { s.out.type = g.C.R_DISCARD; s.in.type = g.C.R_DISCARD; }
   s.deadline = (int) g.pick({ 0, 3, 25, 60, 120 });
+  s.clone = g.chance(50);  // reproc++ binding: options copied from a long-lived options object
   bool dflt = g.chance(55);
   if (!dflt) stratified_stop(g, seed / 2, s.stop, false);
   // default policy without deadline and a child that never ends by itself would hang: make those rare but present
@@ -649,6 +741,15 @@ Plan gen_c15(uint64_t seed, const GenOpts &o) {
     if (state == 2 && g.chance(50)) g.op(OP_SLEEP, -1).a = g.pick({ 1, 10, 30, 70 });
   }
   g.op(OP_DESTROY, state == 6 ? -1 : 0);
+  // a signal arrives (or memory runs out) while destroy waits for the child: it still may not leave a running or unreaped child behind
+  if ((state == 2 || state == 3 || state == 7) && g.chance(8)) {
+    int opi = (int) g.p.ops.size() - 1;
+    switch (g.r.below(3)) {
+      case 0: g.fault(opi, K_poll, (int) g.r.range(1, 2), false, EINTR, (int) g.pick({ 0, 1, 5 })); break;
+      case 1: g.fault(opi, K_waitpid, 1, false, EINTR); break;
+      case 2: g.fault(opi, K_calloc, (int) g.r.range(1, 2), false, F_NULL); break;
+    }
+  }
   if (g.chance(30)) g.op(OP_DESTROY, 0);  // destroying again (now NULL) does nothing
   return g.p;
 }
@@ -656,17 +757,23 @@ Plan gen_c15(uint64_t seed, const GenOpts &o) {
 // ------------------------------------------------------------------ C08: deadlines and timeouts
 Plan gen_c08(uint64_t seed, const GenOpts &o) {
   G g(seed, "C08", o);
+  g.desc_pct = 5;
   world_swarm(g);
+  maybe_clock_step(g, 6);
   int nh = (int) g.r.range(1, 4);
   static const int64_t dls[] = { 0, 0, 1, 20, 21, 22, 50, 100, 100, 101, 400 };
+  // a few plans live for weeks of virtual time: deadlines that expired more than 2^31 / 2^32 ms ago are still expired
+  bool ages = g.chance(4);
   for (int h = 0; h < nh; h++) {
     ChildSpec c = child_quiet(g.pick({ 5, 19, 20, 21, 49, 50, 51, 99, 100, 101, 100000, 100000 }), false, (int) g.r.below(256));
+    if (ages && g.chance(70)) c = child_quiet(20000000000ll, false, 1);
     if (g.chance(30)) c.script.insert(c.script.begin(), { Step{ Step::SLEEP, 0, g.pick({ 10, 20, 50, 100 }), 0 }, Step{ Step::WRITE, 1, 5, 0 } });
     g.add_child(c);
     g.op(OP_NEW, h);
     StartSpec s = simple_start(g, h);
     s.deadline = (int) dls[g.r.below(sizeof dls / sizeof dls[0])];
-    if (g.chance(3)) s.deadline = INT_MAX;
+    if (g.chance(20)) s.deadline = (int) g.r.range(1, 300);  // "any positive value"
+    if (g.chance(3)) s.deadline = (int) g.pick({ INT_MAX, INT_MAX - 1, 1 << 30, 86400000 });
     s.stop[0] = g.C.S_KILL; s.stop[1] = g.C.INFINITE_;
     if (g.chance(30)) s.nonblocking = true;
     if (g.chance(20)) continue;  // stays "not started"
@@ -683,10 +790,12 @@ Plan gen_c08(uint64_t seed, const GenOpts &o) {
           op.v.push_back(g.chance(70) ? (int64_t) g.C.E_EXIT : (int64_t) g.r.below(16));
         }
         op.a = g.pick({ 0, 1, 19, 20, 21, 50, 100, 150, (int64_t) g.C.INFINITE_ });
+        if (g.chance(15)) op.a = (int64_t) g.r.range(0, 250);
+        if (g.chance(2)) op.a = g.pick({ INT_MAX, INT_MAX - 1, 1 << 30 });
         break;
       }
-      case 3: case 4: { Op &op = g.op(OP_WAIT, (int) g.r.below((uint64_t) nh)); op.a = g.pick({ 0, 1, 20, 50, 100, (int64_t) g.C.DEADLINE_, (int64_t) g.C.DEADLINE_ }); break; }
-      case 5: g.op(OP_SLEEP, -1).a = g.pick({ 1, 10, 20, 50, 100 }); break;
+      case 3: case 4: { Op &op = g.op(OP_WAIT, (int) g.r.below((uint64_t) nh)); op.a = g.pick({ 0, 1, 20, 50, 100, (int64_t) g.C.DEADLINE_, (int64_t) g.C.DEADLINE_ }); if (g.chance(15)) op.a = (int64_t) g.r.range(0, 250); break; }
+      case 5: g.op(OP_SLEEP, -1).a = g.pick({ 1, 10, 20, 50, 100 }); if (ages) g.p.ops.back().a = g.pick({ 2147483000ll, 2147484000ll, 2147483648ll + 86400000, 4294967000ll, 4294968000ll, 6000000000ll }); break;
     }
   }
   if (g.chance(12)) {
@@ -700,7 +809,13 @@ Plan gen_c08(uint64_t seed, const GenOpts &o) {
 // ------------------------------------------------------------------ C09: poll reports exactly the true events
 Plan gen_c09(uint64_t seed, const GenOpts &o) {
   G g(seed, "C09", o);
+  g.desc_pct = 8;
   world_swarm(g);
+  // the caller's own standard descriptors: present and quiet, closed, or (descriptor 0) the hung-up end of a finished pipeline
+  if (g.chance(30)) {
+    g.p.w.low_fds = (int) g.r.below(8);
+    if (!(g.p.w.low_fds & 1) && g.chance(60)) { ExtraFd x; x.fd = 0; x.kind = 1; x.cloexec = false; g.p.w.extra.push_back(x); }
+  }
   int nh = (int) g.r.range(1, 4);
   for (int h = 0; h < nh; h++) {
     ChildSpec c;
@@ -782,6 +897,11 @@ Plan gen_c10(uint64_t seed, const GenOpts &o) {
   }
   s.nonblocking = nb;
   s.stop[0] = g.C.S_KILL; s.stop[1] = g.C.INFINITE_;
+  // rounds over the same enumeration: 0 = exec, 1 = fork mode, 2 = exec with one failing call inside start, later ones = a random mix
+  uint64_t round = e;
+  bool with_fork = round == 1 || (round >= 3 && g.chance(30));
+  bool with_fault = round == 2 || (round >= 3 && g.chance(50));
+  if (with_fork) { s.fork = true; s.argv_null = true; }
   ChildSpec c;
   c.script.push_back(Step{ Step::WRITE, 1, 3, 0 });
   c.script.push_back(Step{ Step::WRITE, 2, 2, 0 });
@@ -791,6 +911,15 @@ Plan gen_c10(uint64_t seed, const GenOpts &o) {
   g.add_child(c);
   g.op(OP_NEW, 0);
   Op &st = g.op(OP_START, 0); st.spec = g.add_start(s);
+  if (with_fault) {
+    // a start that still reports success must have connected the streams as requested; failing is the other legal outcome
+    static const struct { Kind k; int err; bool child; } fk[] = {
+      { K_fcntl_other, EMFILE, false }, { K_fcntl_other, EINVAL, false }, { K_open, EMFILE, false }, { K_open, EINTR, false }, { K_open, ENFILE, false },
+      { K_pipe, EMFILE, false }, { K_dup2, EINTR, true }, { K_dup2, EBUSY, true }, { K_fcntl_other, EMFILE, true }, { K_close, EINTR, false }, { K_close, EIO, false },
+      { K_fcntl_setfl, EINVAL, false } };  // (not fileno/F_GETFD: their only failure means "the parent has no such stream", which selects the null device by design)
+    auto &f = fk[g.r.below(sizeof fk / sizeof fk[0])];
+    g.fault(1, f.k, (int) g.r.range(1, f.k == K_close ? 6 : 3), f.child, f.err);
+  }
   // behavioural cross-check: the parent has a pipe end exactly for piped streams
   { Op &w = g.op(OP_WRITE, 0); w.a = 1; }
   if (nb) { Op &r1 = g.op(OP_READ, 0); r1.a = C.STREAM_OUT; r1.b = 16; Op &r2 = g.op(OP_READ, 0); r2.a = C.STREAM_ERR; r2.b = 16; }
@@ -831,9 +960,12 @@ Plan gen_c11(uint64_t seed, const GenOpts &o) {
     g.op(OP_NEW, t, t);
     StartSpec s = simple_start(g, t);
     if (g.chance(50)) rand_redirects(g, s);
+    if (g.chance(15)) { s.fork = true; s.argv_null = true; }
     s.stop[0] = g.C.S_KILL; s.stop[1] = g.C.INFINITE_;
     Op &st = g.op(OP_START, t, t); st.spec = g.add_start(s);
     if (rlimit_fault) g.fault((int) g.p.ops.size() - 1, K_getrlimit, 1, true, (int) g.pick({ EPERM, EINVAL }));
+    // a descriptor-flag call failing in the forked child: the start fails or the child is still clean, never a quiet success with more inherited
+    else if (nthreads == 1 && g.chance(12)) g.fault((int) g.p.ops.size() - 1, K_fcntl_setfd, (int) g.r.range(1, 6), true, (int) g.pick({ EINTR, EINVAL }));  // (not the query form: the close loop uses it as its is-open probe)
     g.op(OP_CLOSE, t, t).a = g.C.STREAM_IN;
     g.op(OP_WAIT, t, t).a = 1000;
     g.op(OP_DESTROY, t, t);
@@ -856,7 +988,9 @@ Plan gen_c11(uint64_t seed, const GenOpts &o) {
 // ------------------------------------------------------------------ C16: drain / run
 Plan gen_c16(uint64_t seed, const GenOpts &o) {
   G g(seed, "C16", o);
+  g.desc_pct = 8;
   world_swarm(g);
+  maybe_clock_step(g, 4);
   size_t cap = g.p.w.k.pipe_cap;
   ChildSpec c;
   int64_t big = cap <= 64 ? 2000 : (g.o.thorough ? 600000 : 40000);
@@ -873,6 +1007,7 @@ Plan gen_c16(uint64_t seed, const GenOpts &o) {
   rand_term(g, c);
   g.add_child(c);
   StartSpec s = simple_start(g, 0);
+  s.clone = g.chance(40);
   s.in.type = g.C.R_DISCARD;
   s.err.type = (int) g.pick({ (int64_t) g.C.R_PIPE, (int64_t) g.C.R_PIPE, (int64_t) g.C.R_STDOUT, (int64_t) g.C.R_DEFAULT, (int64_t) g.C.R_DISCARD });
   s.deadline = (int) g.pick({ 0, 0, 0, 1, 15, 60, 2000 });
@@ -915,23 +1050,32 @@ Plan gen_c16(uint64_t seed, const GenOpts &o) {
 // ------------------------------------------------------------------ C17: nonblocking never blocks
 Plan gen_c17(uint64_t seed, const GenOpts &o) {
   G g(seed, "C17", o);
+  g.desc_pct = 10;
   world_swarm(g);
   size_t cap = g.p.w.k.pipe_cap;
   ChildSpec c;
-  int kind = (int) g.r.below(4);  // idle, slow, never reads/writes, normal
+  int kind = (int) g.r.below(5);  // idle, slow, never reads/writes, normal, gone but survived by a descendant that holds the pipes open
   if (kind == 0) c.script.push_back(Step{ Step::SLEEP, 0, 100000, 0 });
   if (kind == 1) { c.script.push_back(Step{ Step::SLEEP, 0, 30, 0 }); c.script.push_back(Step{ Step::READ, 0, 10, 0 }); c.script.push_back(Step{ Step::WRITE, 1, (int64_t) cap + 5, 1 }); c.script.push_back(Step{ Step::SLEEP, 0, 100000, 0 }); }
   if (kind == 2) { c.script.push_back(Step{ Step::CLOSE, (int) g.pick({ 0, 1 }), 0, 0 }); c.script.push_back(Step{ Step::SLEEP, 0, 100000, 0 }); }
   if (kind == 3) { c.script.push_back(Step{ Step::WRITE, 1, g.pick({ 1, (int64_t) cap, (int64_t) cap * 3 }), 0 }); c.script.push_back(Step{ Step::READ_EOF, 0, 0, 0 }); }
+  if (kind == 4) {
+    if (g.chance(40)) c.script.push_back(Step{ Step::WRITE, 1, g.pick({ 1, 100 }), 0 });
+    c.script.push_back(Step{ Step::SPAWN, (int) g.pick({ 2, 3, 6, 7, 7 }), g.pick({ 300, 100000 }), 0 });
+    c.script.push_back(Step{ Step::EXIT, 0, (int64_t) g.r.below(256), 0 });
+    g.desc_pct = 0;
+  }
   g.add_child(c);
   StartSpec s = simple_start(g, 0);
   s.nonblocking = g.chance(75);
+  if (kind == 4) s.nonblocking = true;
   s.err.type = g.chance(50) ? g.C.R_PIPE : g.C.R_DEFAULT;
   if (g.chance(35)) s.input_size = g.pick({ 0, 1, (int64_t) cap - 1, (int64_t) cap, (int64_t) cap + 1, 4 * (int64_t) cap });
   s.stop[0] = g.C.S_KILL; s.stop[1] = g.C.INFINITE_;
   g.op(OP_NEW, 0);
   Op &st = g.op(OP_START, 0); st.spec = g.add_start(s);
   if (g.chance(12)) g.fault(1, g.chance(70) ? K_fcntl_setfl : K_fcntl_getfl, (int) g.r.range(1, 4), false, (int) g.pick({ EINVAL, EPERM }));
+  if (kind == 4 && g.chance(70)) { if (g.chance(50)) g.op(OP_WAIT, 0).a = 1000; else { Op &sp = g.op(OP_STOP, 0); sp.a = g.C.S_WAIT; sp.b = 1000; } }
   int n = (int) g.r.range(1, 10);
   for (int i = 0; i < n; i++) {
     switch (g.r.below(5)) {
@@ -1042,6 +1186,7 @@ Plan gen_c20(uint64_t seed, const GenOpts &o) {
         if (g.chance(30)) s.wd = 1;
         if (g.chance(40)) { s.wd = (int) g.pick({ 1, 5 }); s.prog = (int) g.pick({ 1, 2, 10 }); }
         if (g.chance(35)) s.err.path = 1;  // a redirect file that has to be created
+        if (g.chance(12)) { s.fork = true; s.argv_null = true; s.prog = 0; }  // a forked copy of the caller instead of a program
         Op &st = g.op(OP_START, t, t); st.spec = g.add_start(s);
         Op &wr = g.op(OP_WRITE, t, t); wr.a = g.pick({ 1, 100 }); wr.c = 1;
         g.op(OP_CLOSE, t, t).a = g.C.STREAM_IN;
